@@ -172,3 +172,132 @@ package object
 // ---- package state established by the initialisers (init-only, see C09) -----------------------------
 
 //@ global True != nil && False != nil && Nil != nil && True != False && True.value && !False.value
+
+// ---- C15: algebraic laws of ==, ordering and hashing, proved over the real method bodies ---------
+// Each harness is a loop-free function whose body calls the real methods; govc case-splits the
+// symbolic operands over the dispatch set, inlines the method bodies and decides the law for all
+// field values (64-bit vectors, IEEE doubles, strings).
+
+//@ spec scalar(x) = oneof(typeof(x), *Int, *Float, *Byte, *String, *Bool, *NilType) && ref(x) != nil && (typeof(x) == *Float ==> !isnan(x.(*Float).value))
+//@ spec numeric(x) = oneof(typeof(x), *Int, *Float, *Byte) && ref(x) != nil && (typeof(x) == *Float ==> !isnan(x.(*Float).value))
+//@ spec ordered(x) = oneof(typeof(x), *Int, *Float, *Byte, *String, *Bool) && ref(x) != nil && (typeof(x) == *Float ==> !isnan(x.(*Float).value))
+
+func verifCmp(a, b Object) (int, bool) {
+	c, ok := a.(Comparable)
+	if !ok {
+		return 0, false
+	}
+	v, err := c.Compare(b)
+	return v, err == nil
+}
+
+func verifEqRefl(a Object) bool { return Equals(a, a) }
+
+//@ func verifEqRefl
+//@ props C15
+//@ mode bv
+//@ dispatch *Int *Float *Byte *String *Bool *NilType
+//@ expand Equals
+//@ requires scalar(a)
+//@ ensures[C15.eq.refl] result
+
+func verifEqSym(a, b Object) bool { return Equals(a, b) == Equals(b, a) }
+
+//@ func verifEqSym
+//@ props C15
+//@ mode bv
+//@ dispatch *Int *Float *Byte *String *Bool *NilType
+//@ expand Equals
+//@ requires scalar(a) && scalar(b)
+//@ ensures[C15.eq.sym] result
+
+func verifEqTrans(a, b, c Object) bool { return !(Equals(a, b) && Equals(b, c)) || Equals(a, c) }
+
+//@ func verifEqTrans
+//@ props C15
+//@ mode bv
+//@ dispatch *Int *Float *Byte *String *Bool *NilType
+//@ expand Equals
+//@ requires scalar(a) && scalar(b) && scalar(c) && typeof(a) == typeof(b) && typeof(b) == typeof(c)
+//@ ensures[C15.eq.trans] result
+
+func verifCmpTotal(a, b Object) bool {
+	x, ok := verifCmp(a, b)
+	return ok && (x == -1 || x == 0 || x == 1)
+}
+
+//@ func verifCmpTotal
+//@ props C15
+//@ mode bv
+//@ dispatch *Int *Float *Byte *String *Bool
+//@ requires ordered(a) && ordered(b) && typeof(a) == typeof(b)
+//@ ensures[C15.cmp.total] result
+
+func verifCmpAntisym(a, b Object) bool {
+	x, ok1 := verifCmp(a, b)
+	y, ok2 := verifCmp(b, a)
+	return ok1 && ok2 && x == -y
+}
+
+//@ func verifCmpAntisym
+//@ props C15
+//@ mode bv
+//@ dispatch *Int *Float *Byte
+//@ split a b
+//@ requires numeric(a) && numeric(b)
+//@ ensures[C15.cmp.antisym] result
+
+func verifCmpAntisymSame(a, b Object) bool {
+	x, ok1 := verifCmp(a, b)
+	y, ok2 := verifCmp(b, a)
+	return ok1 && ok2 && x == -y
+}
+
+//@ func verifCmpAntisymSame
+//@ props C15
+//@ mode bv
+//@ dispatch *String *Bool
+//@ requires oneof(typeof(a), *String, *Bool) && ref(a) != nil && ref(b) != nil && typeof(a) == typeof(b)
+//@ ensures[C15.cmp.antisym.same] result
+
+func verifCmpTrans(a, b, c Object) bool {
+	x, _ := verifCmp(a, b)
+	y, _ := verifCmp(b, c)
+	z, _ := verifCmp(a, c)
+	return !(x <= 0 && y <= 0) || z <= 0
+}
+
+//@ func verifCmpTrans
+//@ props C15
+//@ mode bv
+//@ dispatch *Int *Float *Byte *String *Bool
+//@ split a
+//@ requires ordered(a) && ordered(b) && ordered(c) && typeof(a) == typeof(b) && typeof(b) == typeof(c)
+//@ ensures[C15.cmp.trans] result
+
+func verifCmpZeroIffEq(a, b Object) bool {
+	x, ok := verifCmp(a, b)
+	return ok && ((x == 0) == Equals(a, b))
+}
+
+//@ func verifCmpZeroIffEq
+//@ props C15
+//@ mode bv
+//@ dispatch *Int *Float *Byte *String *Bool
+//@ expand Equals
+//@ requires ordered(a) && ordered(b) && (typeof(a) == typeof(b) || (numeric(a) && numeric(b)))
+//@ ensures[C15.cmp.agrees] result
+
+func verifHashAgree(a, b Object) bool {
+	ha, ok1 := a.(Hashable)
+	hb, ok2 := b.(Hashable)
+	return ok1 && ok2 && (Equals(a, b) == (ha.HashKey() == hb.HashKey()))
+}
+
+//@ func verifHashAgree
+//@ props C15
+//@ mode bv
+//@ dispatch *Int *Float *Byte *String *Bool *NilType
+//@ expand Equals
+//@ requires scalar(a) && scalar(b) && typeof(a) == typeof(b)
+//@ ensures[C15.hash.agree] result
